@@ -107,6 +107,8 @@ def run(tier, selftest=False, only=None):
         rng = random.Random(seed * 977 + 35)
         n, sd, st = (40, 16, 30) if tier == "quick" else (300, 40, 40)
         c07.leap_drift_check(rep, rng, n, sd, st, "chemostat-heavy", chem_p=0.6)
+        # large amounts: a flagged entry that holds tens of molecules is a strong source / reactant for its neighbours
+        c07.leap_drift_check(rep, rng, (n * 3) // 5, sd, st, "chemostat-heavy-large-amounts", chem_p=0.6, max_mol=60, cap=2000, dt=0.01)
     if sel("euler"):
         rng = random.Random(seed * 4409 + 34)
         n, steps = (100, 3000) if tier == "quick" else (1000, 30000)
